@@ -169,6 +169,9 @@ def signature(pid, m):
         on = "sibling" if diff and diff <= {_sibling(a.get("a", ""))} else "named" if diff <= {a.get("a", "")} else "other"
         if on != "named":      # (a difference on the named account itself is classified as in every vocabulary)
             return "%s|exact/state|%s|%s|on=%s" % (pid, m["act"], ",".join(sorted(m["what"])), on)
+    if k == "matrix-state":       # the probe matrix (statements run as the users) changed the stored state
+        s, e = _atoms(m["spec"]), _atoms(m["engine"])
+        return "%s|matrix-state|%s|lost=%s|extra=%s" % (pid, ",".join(sorted(m["what"])), _levels([x[1:3] for x in s - e]), _levels([x[1:3] for x in e - s]))
     if k == "state":
         a = m.get("actrec", {})
         lvl = ""
